@@ -18,6 +18,7 @@ func c10(c *Ctx) {
 	r.RuleText = "one obligation per (rule, read site / anchor / return / comparison)"
 	r.Floor("C10.R1", 2)
 	r.Floor("C10.R2", 2)
+	checkStickyLoadFailure(p, r, "C10.R4")
 	r.Floor("C10.R3", 6)
 	fns := p.FuncsIn(uxPkg)
 	// once initialiser
@@ -361,6 +362,85 @@ func knownAtEdge(pred, succ *ssa.BasicBlock) []Guard {
 // checkExactSymbolMatch: in package unexports2 symbols are selected only by == against the requested name
 // (or by debug/gosym's exact LookupFunc); no derived form of either name takes part, and every by-name
 // lookup helper returns a non-nil symbol only under such an equality. Returns the number of comparisons seen.
+// checkStickyLoadFailure (C10.R4): the function that fills the symbol-table cache remembers a failed read: every way out
+// of it on which the reader's error is non-nil has stored that error in the package-level error cache. The slides are
+// computed once (sync.Once); if the first read failed transiently and a later one succeeded, every lookup would succeed
+// with slides that were never computed.
+func checkStickyLoadFailure(p *Prog, r *Report, rule string) {
+	var loader *ssa.Function
+	var errG *ssa.Global
+	for _, f := range p.FuncsIn(uxPkg) {
+		if isPkgInit(f) {
+			continue
+		}
+		eachInstr(f, func(i ssa.Instruction) {
+			st, ok := i.(*ssa.Store)
+			if !ok {
+				return
+			}
+			g, ok := st.Addr.(*ssa.Global)
+			if !ok {
+				return
+			}
+			if strings.Contains(g.Type().String(), "gosym.Table") && !isNilConst(st.Val) {
+				loader = f
+			}
+		})
+	}
+	if loader == nil {
+		r.Und(rule, "symbol table loader", "", "no function of unexports2 stores a *gosym.Table into a package-level variable")
+		return
+	}
+	errT := types.Universe.Lookup("error").Type()
+	if pk := p.SPkg[Mod+"/"+uxPkg]; pk != nil {
+		for _, m := range pk.Members {
+			if g, ok := m.(*ssa.Global); ok {
+				if pt, ok := g.Type().Underlying().(*types.Pointer); ok && types.Identical(pt.Elem(), errT) {
+					errG = g
+				}
+			}
+		}
+	}
+	if errG == nil {
+		r.Bad(rule, "load failure is remembered", p.Pos(loader.Pos()), "package unexports2 has no package-level error variable: a failed symbol-table read cannot be remembered")
+		return
+	}
+	n := 0
+	eachInstr(loader, func(i ssa.Instruction) {
+		cl, ok := i.(*ssa.Call)
+		if !ok {
+			return
+		}
+		cal := staticCallee(cl.Common())
+		if cal == nil || cal == loader || relPkg(cal) != uxPkg || cal.Signature.Results().Len() != 2 || !strings.Contains(cal.Signature.Results().At(0).Type().String(), "gosym.Table") {
+			return
+		}
+		n++
+		isErrOf := func(v ssa.Value) bool {
+			for _, a := range origins(v) {
+				if ex, ok := a.V.(*ssa.Extract); ok && ex.Tuple == ssa.Value(cl) && ex.Index == 1 {
+					return true
+				}
+			}
+			return false
+		}
+		isRecord := func(j ssa.Instruction) bool {
+			st, ok := j.(*ssa.Store)
+			return ok && st.Addr == ssa.Value(errG) && isErrOf(st.Val)
+		}
+		for _, ret := range returnsOf(loader) {
+			if !reachableAfter(cl, ret) || errNilGuarded(ret.Block(), cl) {
+				continue
+			}
+			r.Check(passedBefore(loader, ret, isRecord, nil), rule, "reader failure recorded before return in "+shortName(loader), p.Pos(posOf(ret)), "error cache stored on every failing way out",
+				"the symbol-table loader can return the reader's error without recording it: the next lookup reads the file again, and if that succeeds after the one-time slide computation already ran (and failed), every by-name lookup succeeds with slides that were never computed")
+		}
+	})
+	if n == 0 {
+		r.Und(rule, "reader call in "+shortName(loader), p.Pos(loader.Pos()), "the loader does not call a reader returning (*gosym.Table, error)")
+	}
+}
+
 func checkExactSymbolMatch(p *Prog, r *Report, rule string) int {
 	fns := p.FuncsIn(uxPkg)
 	nCmp := 0
